@@ -23,7 +23,10 @@ def ctor_kwargs(p):
     model = {'kernel': kname, 'bandwidth': p['bandwidth'], 'exponent': p['q'], 'diag': p['diag'],
              'bandwidth_mode': 'adaptive' if (p['adaptive'] and kname != 'sum_power_laplace') else 'constant'}
     model.update(kw)
-    kws = dict(rfm_params={'model': model, 'fit': {'reg': 1e-3, 'iters': p['iters'], 'verbose': False, 'early_stop_rfm': False}},
+    fitp = {'reg': 1e-3, 'iters': p['iters'], 'verbose': False, 'early_stop_rfm': False}
+    if p.get('solver'):
+        fitp['solver'] = p['solver']
+    kws = dict(rfm_params={'model': model, 'fit': fitp},
                max_leaf_size=p['L'], device='cpu', verbose=False, random_state=p['dseed'], split_method=p['method'],
                n_trees=p['trees'], overlap_fraction=p['f'], classification_mode=p['mode'], tuning_metric=p['metric'],
                use_temperature_tuning=p['tune'], split_temperature=p['temp'], temp_tuning_space=p.get('space'),
@@ -213,6 +216,12 @@ def gen_cases(run):
                           bandwidth=5.0, iters=1, L=24, n=90, d=3, method='random', trees=1 + (k % 2), f=0.0, mode='prevalence',
                           metric=None, tune=True, temp=temp, space=space, set_temp_after=None, keep=0.99, cap=12, outputs=1,
                           classes=3, pickle=bool(k % 2), dseed=r.randint(0, 10 ** 6)))
+    # the logistic leaf solver marks the label decoder (`_numerical_type = 'logit_diff'`): binary, zero_one
+    for k in range(2 if run.tier == 'quick' else 8):
+        cases.append(dict(family='fitted-models', task='class', kernel=list(KERNELS[k % 2]), q=1.0, diag=False, adaptive=False,
+                          bandwidth=5.0, iters=1, L=[1000, 30][k % 2], n=80, d=3, method='random', trees=1, f=0.0, mode='zero_one',
+                          metric='accuracy', tune=False, temp=None, space=None, set_temp_after=None, keep=0.99, cap=12, outputs=1,
+                          classes=2, pickle=bool(k % 2), solver='log_reg', dseed=r.randint(0, 10 ** 6)))
     return cases
 
 
